@@ -65,6 +65,9 @@ def check_validator(fx, rep, b):
     env = T.env_at(okps, okn, mutated)
     tgt_local = F.local_of(okn["args"][0])
     tgt = T.term(okn["args"][0], env, mutated)
+    # a conversion moved into a helper function of the same module is read through
+    mod_prefix = b["def"].rsplit("::", 1)[0] + "::"
+    tgt = T.inline_calls(tgt, fx, only=lambda nm: nm.startswith(mod_prefix) and nm != b["def"])
     # (a) derived from the folded constant through a checked conversion, no narrowing
     calls_in = [s for s in T.subterms(tgt) if s[0] == "call" and isinstance(s[1], str)]
     names = [F.strip_generics(s[1]) for s in calls_in]
